@@ -1,7 +1,7 @@
 (* C04 -- property theorems only. `_refuted` theorems are facts about the faithful model of the CURRENT code
    (the correspondence check replays their witnesses on the implementation); see known_findings.json. *)
-From Coq Require Import ZArith List Bool Sorted.
-From WNTRV Require Import Lib.Sched C04.Proofs C04.AtTime C04.RuleGe C04.Prio C04.Window C04.AtTimeSet C04.AtTimeAll C04.RuleSet C04.Mixed.
+From Coq Require Import ZArith List Bool Sorted Lia.
+From WNTRV Require Import Lib.Sched C04.Proofs C04.AtTime C04.RuleGe C04.Prio C04.Window C04.AtTimeSet C04.AtTimeAll C04.RuleSet C04.Mixed C04.RuleInterval.
 Import ListNotations.
 Local Open Scope Z_scope.
 
@@ -232,6 +232,14 @@ Theorem C04_mixed_total : forall cs rl hs rs sc D st0, 0 < rs -> 0 < hs -> (fora
     (forall e, In e tr -> is_M cs rl rs st0 (fst e) (snd e)) /\
     (forall T', -1 <= T' <= D -> is_M cs rl rs st0 T' (status_at st0 tr T')).
 Proof. intros cs rl hs rs sc D st0 H1 H2 H3 H4 H5 H6 H7 H8. exact (mixed_total cs rl hs rs sc D st0 H1 H2 H3 H4 H5 H6 H7 H8). Qed.
+(* two readings of `is_M`: a link that no rule targets behaves as if there were no rules -- the latest control reached wins and keeps its
+   value until a later control changes it --, and a link that no control targets shows the winning true rule *)
+Theorem C04_mixed_link_without_rules : forall cs rl rs st0 T st l, is_M cs rl rs st0 T st -> (l < length st0)%nat -> (forall z, In z rl -> x_link z <> l) ->
+  (exists x, cwin cs T l x /\ nth l st false = x_val x) \/ (cnone cs T l /\ nth l st false = nth l st0 false).
+Proof. intros cs rl rs st0 T st l. exact (is_M_without_rules cs rl rs st0 T st l). Qed.
+Theorem C04_mixed_link_without_controls : forall cs rl rs st0 T st l, is_M cs rl rs st0 T st -> (l < length st0)%nat -> (forall x, In x cs -> x_link x <> l) ->
+  (exists z, rwin rl (KT rs T) l z /\ nth l st false = x_val z) \/ (rnone rl (KT rs T) l /\ nth l st false = nth l st0 false).
+Proof. intros cs rl rs st0 T st l. exact (is_M_without_controls cs rl rs st0 T st l). Qed.
 (* non-vacuity: rule step 900 s; a rule (thr 1500, acts at 1800) closes link 0; a control opens it at 2000; the rule closes it again at the next
    rule instant 2700; a control at exactly 3600 (a rule instant) opens it after the rules of that instant, the rules close it again at 4500 *)
 Example C04_mixed_run :
@@ -240,6 +248,38 @@ Example C04_mixed_run :
   let rl := [(0%nat, c 1500 3 0%nat false)] in
   option_map fst (steps 30 (gm cs rl 3600 900 0 7200 [true]) 7200 (init_state (gm cs rl 3600 900 0 7200 [true])))
   = Some [(0, [true]); (1800, [false]); (2000, [true]); (2700, [false]); (3600, [true]); (4500, [false]); (7200, [false])].
+Proof. vm_compute. reflexivity. Qed.
+
+(* a rule with a RANGE condition and an ELSE part: IF SYSTEM TIME >= a AND SYSTEM TIME < b THEN link := v ELSE link := not v (any a < b or
+   not, any grids): at every solved step the statuses are the initial ones with the link set to v exactly when the last multiple of the rule
+   step <= the time of the step lies in [a, b) -- the range condition is true exactly on the stated interval, as seen at the rule instants
+   --, no rule instant at which the status changes is stepped over, and the run exists and ends at the duration *)
+Theorem C04_rule_interval_exact : forall a b hs rs sc D l v st0 p, 0 < rs -> 0 < hs ->
+  forall D' f tr sf, steps f (gi a b hs rs sc D l v st0 p) D' (init_state (gi a b hs rs sc D l v st0 p)) = Some (tr, sf) ->
+  (forall e, In e tr -> snd e = set_nth st0 l (ival a b v (fst e / rs * rs))) /\
+  (forall i, 0 <= i -> i * rs <= s_prev sf ->
+     In (i * rs) (map fst tr) \/ exists st, (st = st0 \/ In st (map snd tr)) /\ st = set_nth st0 l (ival a b v (i * rs))).
+Proof.
+  intros a b hs rs sc D l v st0 p H1 H2 D' f tr sf H.
+  destruct (rule_interval_exact a b hs rs sc D l v st0 p H1 H2 D' f tr sf H) as [Ha Hb].
+  assert (Hpos : forall e, In e tr -> 0 <= fst e).
+  { destruct (rint_steps a b hs rs sc D l v st0 p H1 H2 D' f _ _ _ (riinv_init a b hs rs sc D l v st0 p H1) H) as (_ & Hall & _).
+    intros e He. destruct (Hall e He) as [_ Hr]. cbn [s_prev init_state] in Hr. lia. }
+  split.
+  - intros e He. destruct (Ha e He) as [[Hneg _]|[_ E]]; [|exact E]. exfalso. specialize (Hpos e He).
+    assert (0 <= fst e / rs * rs); [|lia]. assert (0 <= fst e / rs) by (apply Z.div_pos; lia). nia.
+  - intros i Hi Hle. destruct (Hb i Hi Hle) as [Hin|(st & Hst & [[Hneg _]|[_ E]])]; [left; exact Hin|exfalso; nia|right; exists st; split; assumption].
+Qed.
+Theorem C04_rule_interval_total : forall a b hs rs sc D l v st0 p, 0 < rs -> 0 < hs -> 0 < D -> D mod hs = 0 ->
+  exists f tr sf, steps f (gi a b hs rs sc D l v st0 p) D (init_state (gi a b hs rs sc D l v st0 p)) = Some (tr, sf) /\ s_prev sf = D.
+Proof.
+  intros a b hs rs sc D l v st0 p H1 H2 H3 H4. destruct (rule_interval_total a b hs rs sc D l v st0 p H1 H2 H3 H4) as (f & tr & sf & E & Hend & _).
+  exists f, tr, sf. split; assumption.
+Qed.
+(* non-vacuity: range [2000, 5000), rule step 900 s: open from the rule instant 2700 until the rule instant 5400 (closed by the ELSE part from time 0) *)
+Example C04_rule_interval_run :
+  option_map fst (steps 30 (gi 2000 5000 3600 900 0 7200 0 true [true] 3) 7200 (init_state (gi 2000 5000 3600 900 0 7200 0 true [true] 3)))
+  = Some [(0, [false]); (2700, [true]); (3600, [true]); (5400, [false]); (7200, [false])].
 Proof. vm_compute. reflexivity. Qed.
 
 Print Assumptions C04_simtime_eq_fires_iff.
@@ -259,6 +299,10 @@ Print Assumptions C04_rule_set_exact.
 Print Assumptions C04_rule_set_total.
 Print Assumptions C04_mixed_exact.
 Print Assumptions C04_mixed_total.
+Print Assumptions C04_mixed_link_without_rules.
+Print Assumptions C04_mixed_link_without_controls.
+Print Assumptions C04_rule_interval_exact.
+Print Assumptions C04_rule_interval_total.
 Print Assumptions C04_at_time_fires_exactly.
 Print Assumptions C04_at_time_silent_otherwise.
 Print Assumptions C04_clock_control_daily_refuted.
